@@ -36,6 +36,7 @@ class CContract:
         self.locals_ = dict(kw.pop("locals", {}))        # let-definitions usable in all clauses: name -> expr
         self.omp = dict(kw.pop("omp", {}))               # loop key -> dict(shared_written={...}) extra info
         self.hints = dict(kw.pop("hints", {}))
+        self.asserts = dict(kw.pop("asserts", {}))       # loop key (end of body) or "end" -> [proof steps: proved, then assumed]
         self.note = kw.pop("note", "")
         self.nothrow = kw.pop("nothrow", True)
         if kw:
@@ -387,6 +388,32 @@ def opaque(name, fn, sort="real"):
 
 BASE_NS["rsum"] = rsum
 BASE_NS["reveal"] = lambda *a: z3.BoolVal(True)
+
+
+_blk = z3.Function("val$", smt.R, smt.R)
+
+
+def block(x):
+    """names an intermediate value of a spec function: val$(x) with the instance val$(x) == x.  Products are then
+    formed with the named value (as the code forms them with a program variable) instead of being flattened
+    through its definition, which keeps code and spec congruent under the product abstraction."""
+    if MODE == "conc" or isinstance(x, (int, float, _Fr)):
+        return x
+    x = smt.real(x)
+    t = _blk(x)
+    ik = ("blk", t.sexpr())
+    if ik not in SINK.seen:
+        SINK.seen.add(ik)
+        SINK.facts.append(t == x)
+    return t
+
+
+def opaque_fn(name, fn, sort="real"):
+    return opaque(name, fn, sort)
+
+
+BASE_NS["opaque_fn"] = opaque_fn
+CONC_NS["opaque_fn"] = lambda name, fn, sort="real": fn
 
 
 def register_spec(**fns):
